@@ -6,16 +6,13 @@ Driver handlers of the planetary event finders (C13).  Only the binary64 instant
 executable (the finders use sin/cos); the dispatch name -> record is generated
 (Pymeeus/Gen/FinderDispatch.lean, tools/gen_finders.py).
 
-  F finder s<Planet>.<finder> f<y>        -> `Epoch(jde0 + corr).jde()` and the elongation angle | None
-  F finder_jde s<Planet>.<finder> f<jde>   -> the same from the `_jde` of the query epoch (`Epoch.year()` modelled too)
-  F epoch_year f<jde>                     -> `Epoch(jde).year()` for an epoch whose `_jde` is jde
-  F finder_raw s<Planet>.<finder> f<y>    -> `jde0 + corr`
+  F finder_jde s<Planet>.<finder> f<jde>  -> the whole finder from the `_jde` of the query epoch: `Epoch.year()`,
+                                             k, jde0, corr, `Epoch(jde0 + corr)._jde` and the elongation angle | None
+  F pa_jde s<Planet>.perihelion_aphelion f<jde> T|F -> first approximation `jde` from the `_jde` of the query epoch
+  F finder_raw s<Planet>.<finder> f<y>    -> `jde0 + corr` from y = epoch.year()
   F finder_k s<Planet>.<finder> f<y>      -> the period count k
-  F pa_k s<Planet>.perihelion_aphelion f<y> T|F    -> k of the first approximation
-  F pa_jde s<Planet>.perihelion_aphelion f<y> T|F  -> first approximation `jde`
-  F finder_bounds s<Planet>.<finder>     -> B, centre and radius of `corr` (exact rationals `n/d`; the bounds of Props/C13.lean)
+  F finder_bounds s<Planet>.<finder>      -> B, centre and radius of `corr` (exact rationals `n/d`; the bounds of Props/C13.lean)
   F pa_bounds s<Planet>.perihelion_aphelion -> P, Q, delta, bound of Earth's periodic correction
-  F epoch_of_jde f<jde>                   -> `Epoch(jde).jde()`
 -/
 namespace Driver
 open Pymeeus
@@ -23,18 +20,19 @@ open Pymeeus
 /-- `s<text>` arguments arrive with `_` turned into blanks; finder names contain `_`. -/
 def fname (a : Arg) : String := a.s.replace " " "_"
 
+def outFinder (x : PyRes (GenF.Epoch × Option Float)) : String :=
+  match x with
+  | .error e => out (.error e : PyRes Float)
+  | .ok (ep, el) => out (ep.jde, el)
+
 def findersF : Handler := fun fn a =>
   match fn with
-  | "finder" => (finderRecord (fname a[0]!)).map fun r => out (GenF.finder_epoch r a[1]!.f)
+  | "finder_jde" => (finderRecord (fname a[0]!)).map fun r => outFinder (GenF.finder_from_jde r a[1]!.f)
+  | "pa_jde" => (paRecord (fname a[0]!)).map fun r => out (GenF.pa_from_jde r a[1]!.f a[2]!.b)
   | "finder_raw" => (finderRecord (fname a[0]!)).map fun r => out (GenF.finder_raw r a[1]!.f)
   | "finder_k" => (finderRecord (fname a[0]!)).map fun r => out (GenF.finder_k r a[1]!.f)
-  | "pa_k" => (paRecord (fname a[0]!)).map fun r => out (GenF.pa_k r a[1]!.f a[2]!.b)
-  | "pa_jde" => (paRecord (fname a[0]!)).map fun r => out (GenF.pa_jde r (GenF.pa_k r a[1]!.f a[2]!.b) a[2]!.b)
   | "finder_bounds" => (finderRecord (fname a[0]!)).map fun r => out (r.B.toRat, r.corrMid, r.corrRad)
   | "pa_bounds" => (paRecord (fname a[0]!)).map fun r => out (r.P.toRat, r.Q.toRat, r.delta.toRat, r.corrRad)
-  | "finder_jde" => (finderRecord (fname a[0]!)).map fun r => out (GenF.finder_from_jde r a[1]!.f)
-  | "epoch_year" => some <| out (GenF.epoch_year a[0]!.f)
-  | "epoch_of_jde" => some <| out (GenF.epoch_of_jde a[0]!.f)
   | _ => none
 
 end Driver
